@@ -4,6 +4,7 @@ import (
 	"fmt"
 	"go/ast"
 	"go/token"
+	"go/types"
 	"sort"
 	"strconv"
 	"strings"
@@ -21,17 +22,35 @@ import (
 var pseudoEvents = []string{"map.update", "map.delete", "map.next", "mem.store", "chan.send", "chan.recv", "chan.close",
 	"chan.select.recv", "chan.select.send", "return"}
 
+// ifaceNames: the named interface types of the repository's packages (filled by validatePatterns).
+var ifaceNames []string
+
+// extraNames: methods of the repository's types (whether or not anything still calls them).
+var extraNames []string
+
 func staticEventNames(fns map[string]*ssa.Function) []string {
 	set := map[string]bool{}
 	add := func(n string) { set[strings.ReplaceAll(n, modulePrefix+"/", "")] = true }
 	for _, p := range pseudoEvents {
 		add(p)
 	}
+	for _, n := range extraNames {
+		add(n)
+	}
 	for name, f := range fns {
+		// every function of the program is a possible callee name: a pattern is vacuous when it is MIS-SPELT, not when
+		// a change to the code removed the last call of the function it names (that must surface as a violation of the
+		// clause, not as a contract error)
+		add(name)
+		if f.Signature != nil && f.Signature.Recv() != nil {
+			// an interface method is called under the interface's name: (pkg.Iface).Method
+			for _, it := range ifaceNames {
+				add("(" + it + ")." + f.Name())
+			}
+		}
 		if !strings.Contains(name, modulePrefix) {
 			continue
 		}
-		add(name)
 		for _, b := range f.Blocks {
 			for _, ins := range b.Instrs {
 				var c *ssa.CallCommon
@@ -95,6 +114,32 @@ func specStrings(e *specExpr, out *[]string) {
 
 // validatePatterns returns one message per pattern of the given contracts that can never match.
 func validatePatterns(cts []*Contract, fns map[string]*ssa.Function) []string {
+	ifaceNames, extraNames = nil, nil
+	seenPkg := map[*ssa.Package]bool{}
+	for _, f := range fns {
+		if f.Pkg == nil || seenPkg[f.Pkg] || !strings.HasPrefix(f.Pkg.Pkg.Path(), modulePrefix) {
+			continue
+		}
+		seenPkg[f.Pkg] = true
+		for _, m := range f.Pkg.Members {
+			if t, ok := m.(*ssa.Type); ok {
+				if _, isIface := t.Type().Underlying().(*types.Interface); isIface {
+					ifaceNames = append(ifaceNames, strings.ReplaceAll(f.Pkg.Pkg.Path(), modulePrefix+"/", "")+"."+t.Name())
+					continue
+				}
+				// methods that nothing calls any more are still names a clause may mention
+				for _, recv := range []types.Type{t.Type(), types.NewPointer(t.Type())} {
+					ms := f.Pkg.Prog.MethodSets.MethodSet(recv)
+					for i := 0; i < ms.Len(); i++ {
+						if mf := f.Pkg.Prog.MethodValue(ms.At(i)); mf != nil {
+							extraNames = append(extraNames, mf.String())
+						}
+					}
+				}
+			}
+		}
+	}
+	sort.Strings(ifaceNames)
 	names := staticEventNames(fns)
 	matches := func(pat string) bool {
 		if strings.HasPrefix(pat, "dyn:") {
